@@ -9,6 +9,9 @@ use futures::{SinkExt, StreamExt, channel::mpsc};
 #[derive(Debug)]
 struct BoundQueueInner<T> {
     tx: mpsc::Sender<T>,
+    // `try_send` goes through this one sender: a fresh clone of an mpsc sender always owns a free
+    // slot, so trying on a clone would never see a full queue
+    try_tx: Mutex<mpsc::Sender<T>>,
     rx: Mutex<mpsc::Receiver<T>>,
 }
 
@@ -25,12 +28,17 @@ impl<T> BoundQueue<T> {
     #[inline]
     pub fn new(size: usize) -> Self {
         let (tx, rx) = mpsc::channel(size);
-        Self(Arc::new(BoundQueueInner { tx, rx: rx.into() }))
+        let try_tx = Mutex::new(tx.clone());
+        Self(Arc::new(BoundQueueInner {
+            tx,
+            try_tx,
+            rx: rx.into(),
+        }))
     }
 
     #[inline]
     pub fn try_send(&self, item: T) -> Result<(), mpsc::TrySendError<T>> {
-        self.0.tx.clone().try_send(item)
+        self.0.try_tx.lock().unwrap().try_send(item)
     }
 
     #[inline]
